@@ -40,6 +40,8 @@ def gen_case(st, tier, env):
     else:
         ds = gen.gen_dataset(w, n_max=n_max, m_max=6, n_min=2)
     scheme = gen.gen_scheme(w, dyadic=True)
+    if k.random() < 0.06:
+        scheme = gen.gen_mixed_magnitude_scheme(w)
     if k.random() < 0.3 and scheme["B"][5] == scheme["T"][5]:
         scheme["B"][5] = scheme["T"][5] + 0.5
         scheme["family"] += "/B5>T5"
@@ -195,8 +197,14 @@ def _phase(case, ctx, world, scheme_spec):
         ctx.probe("parcons_returned")
         if cplex_stats and cplex_stats["solves"] + cplex_stats["populates"] > solves0:
             ctx.probe("exact_component_solved")
-        if well_formed(out.cons, mr, True):
-            ctx.probe("malformed_skipped")
+        wf = well_formed(out.cons, mr, True)
+        if wf:
+            # a consensus that is not a ranking of the universe cannot place the groups of the partition
+            ctx.probe("malformed_parcons")
+            ctx.violate("C06/consensus-ignores-partition", wf[0]["observed"],
+                        "a ranking of the universe that places every earlier group before every later group",
+                        dict(t, what=wf[0]["what"]), out.label)
+            ctx.violations[-1]["case_override"] = repro
             continue
         cr = canon_ranking(out.cons.consensus_rankings[0])
         ctx.event("result", jsonable_ranking(cr))
